@@ -18,6 +18,7 @@ CHECKS = {
  "C12": ("Step lemma and callback obligations per opcode over an arbitrary state; the real RunUntil loop run symbolically over short programs with symbolic target and budget.", TRUST + "RunUntil for programs beyond the unrolling bound rests on the Step lemma (cycles >= 1), argued not solver-checked.", "§6 C12"),
  "C19": ("Every instruction method and data blocks at capacities from ample down to 3 bytes short, refusal observed around the real call; dry-run twin compared after every call of short sequences.", TRUST + "Capacities 0..4 (thorough 0..6).", "§6 C19"),
  "C13": ("Probe memories behind the real Bus; routing after up to three Attach calls over overlapping/adjacent/nested ranges checked at a symbolic address; misaligned Attach with symbolic bounds; EaDump for every start/end alignment over up to 4-5 segments.", TRUST + "Bounded: 8 candidate ranges in a 512-byte window, <= 3 attaches.", "§6 C13"),
+ "C14": ("One trace line per opcode x width setting x interpreter from an arbitrary state, parsed without branching on symbolic characters and compared with the pre-state and the opcode matrix; the disassembler call and RunUntil with/without Logger leave CPU and memory identical.", TRUST + "Rendering syntax is not imposed; required content only.", "§6 C14"),
  "C15": ("Real WriteHexTo/WriteTextTo on short call sequences with symbolic operands, data and base; listings parsed arithmetically and compared with the harness' own record of what was issued.", TRUST + "Bounded: sequences of <= 2 (thorough 3) calls.", "§6 C15"),
  "C16": ("Differential run of the real code: the same call sequence fed directly and through Clone+Append, every split point; getters, text listing and Finalize outcome compared; operands, flags and base symbolic.", TRUST + "Bounded: sequences of <= 3 (thorough 4) calls, two labels.", "§6 C16"),
  "C17": ("All colour/multiplicand/divisor values symbolic; per-channel closed form in 32 bits as reference; monotonicity queries decided by cvc5 --solve-bv-as-int where bit-blasting times out.", TRUST, "§6 C17"),
